@@ -191,6 +191,10 @@ def malformed_space(tier):
                 # ET for step k present only at an off-grid instant, and ET
                 # sampled twice as often with the on-grid row of step k absent
                 index.append((n, a, b, 'shift-et', k))
+                if grid[0] < k < grid[-1]:
+                    # the rain AND the ET stamp of step k are both a third
+                    # of a step late: steps are no longer uniform
+                    index.append((n, a, b, 'displace-rain-and-et', k))
                 index.append((n, a, b, 'dense-et-without', k))
             for mode in ('db', 'cli'):
                 index.append((n, a, b, 'load-twice', mode))
@@ -205,8 +209,19 @@ def malformed_space(tier):
     return Space('malformed inputs', len(index), decode)
 
 
+FIXED = ['Etc/GMT+5', 'Etc/GMT-10', 'Etc/GMT-3', 'Etc/GMT+12', 'Etc/UTC',
+         'Asia/Kolkata', 'Asia/Kathmandu', 'America/Bogota']
+
+
+def fixed_space():
+    def decode(i):
+        return {'kind': 'e2e-fixed', 'zone': FIXED[i]}
+    return Space('main(load) in fixed-offset zones', len(FIXED), decode)
+
+
 def spaces(tier):
-    return [malformed_space(tier), e2e_space(tier), stamp_space(tier)]
+    return [malformed_space(tier), fixed_space(), e2e_space(tier),
+            stamp_space(tier)]
 
 
 # ------------------------------------------------------------------ runs
@@ -383,6 +398,11 @@ def run_malformed(case):
     k = case['arg']
     if what == 'drop-rain':
         rain = [r for r in rain if r[0] != t0 + k * dt]
+    elif what == 'displace-rain-and-et':
+        rain = [(t + dt // 3, v) if t == t0 + k * dt else (t, v)
+                for t, v in rain]
+        et = [(t + dt // 3, v) if t == t0 + k * dt else (t, v)
+              for t, v in et]
     elif what == 'shift-et':
         et = [(t + dt // 3, v) if t == t0 + k * dt else (t, v)
               for t, v in et]
@@ -411,7 +431,7 @@ def run_malformed(case):
             '%s at step %d of the grid was loaded without an error '
             '(n=%d, level from step %d to %d)'
             % ('a missing rainfall row (non-uniform steps)'
-               if what == 'drop-rain' else
+               if what in ('drop-rain', 'displace-rain-and-et') else
                'ET missing for a grid step (%s)' % what, k,
                case['n'], case['level_from'],
                case['n'] - 1 - case['level_before_end'])))
@@ -479,7 +499,52 @@ def run_after_failed_load(case, rain, et, level):
                        'second': repr(second)[:100]})
 
 
+def run_e2e_fixed(case):
+    """A record loaded through the command line in a zone without
+    transitions in 2020: stored epochs = instants rendering to the texts"""
+    tz = pytz.timezone(case['zone'])
+    dt = 1800
+    base = records.T0_DEFAULT + 86400 * 40
+    n = 6
+    epochs = [base + k * dt for k in range(n + 1)]
+    texts = [render(e, tz).strftime(FMT) for e in epochs]
+    p = records.csv_text('datetime,p', [(texts[k], 0.25 * k)
+                                       for k in range(n)])
+    e = records.csv_text('datetime,e', [(texts[k], 0.01 * k + 1)
+                                       for k in range(n + 1)])
+    z = records.csv_text('datetime,z', [(texts[k], 10.0 - k)
+                                       for k in range(n)])
+    db = os.path.join(cs.tmpdir(), 'c11f.sqlite3')
+    status, _, _, exc = cs.cli_load(db, p, e, z, case['zone'])
+    if status != 0:
+        if os.path.exists(db):
+            os.unlink(db)
+        return Result(viol=[('valid-record-refused',
+                             'load --timezone %s refused a valid record: %r'
+                             % (case['zone'], exc))],
+                      nontrivial=True, outcome='refused')
+    connection = sqlite3.connect(db)
+    try:
+        grid = [r[0] for r in connection.execute(
+            'SELECT epoch FROM grid_time ORDER BY 1')]
+    finally:
+        connection.close()
+        os.unlink(db)
+    viol = []
+    want = epochs[:n] + [epochs[n - 1] + dt]
+    if grid != want:
+        viol.append(('e2e-fixed-zone',
+                     'declared zone %s: first grid epoch %r, the text %r is '
+                     'the instant %r there (off by %r s)'
+                     % (case['zone'], grid[:1], texts[0], want[0],
+                        (grid[0] - want[0]) if grid else None)))
+    return Result(viol=viol, nontrivial=True, outcome=repr(
+        (grid[0] - want[0]) if grid else None))
+
+
 def run_case(case):
+    if case['kind'] == 'e2e-fixed':
+        return run_e2e_fixed(case)
     if case['kind'] == 'stamp':
         return run_stamp(case)
     if case['kind'] == 'e2e':
